@@ -160,6 +160,8 @@ def match_known(known, pid, engine, unit, f):
                 continue
             if k.get('exit_context_startswith') and not (f.get('exit_context') or '').startswith(k['exit_context_startswith']):
                 continue
+            if k.get('exit_context_regex') and not re.search(k['exit_context_regex'], f.get('exit_context') or ''):
+                continue
             if k.get('exit_contains') and k['exit_contains'] not in (f.get('exit_text') or ''):
                 continue
             return k
